@@ -36,9 +36,9 @@ for V in $(ls $SRC); do
     git apply $PATCH
     if cargo test --offline >>$LOG 2>&1; then suite=pass; else suite=FAIL; fi
     if [ -f _seed/$V/demo/run.sh ]; then
-      if sh _seed/$V/demo/run.sh >>$LOG 2>&1; then demo_with=pass-UNEXPECTED; else demo_with=fail-as-expected; fi
+      if bash _seed/$V/demo/run.sh >>$LOG 2>&1; then demo_with=pass-UNEXPECTED; else demo_with=fail-as-expected; fi
       git checkout -q -- . ; git clean -fdq -e _seed -e target
-      if sh _seed/$V/demo/run.sh >>$LOG 2>&1; then demo_without=pass; else demo_without=FAIL-UNEXPECTED; fi
+      if bash _seed/$V/demo/run.sh >>$LOG 2>&1; then demo_without=pass; else demo_without=FAIL-UNEXPECTED; fi
     fi
   fi
   git checkout -q -- . ; git clean -fdq -e _seed -e target
